@@ -1,6 +1,6 @@
 CO = "crates/tower-resilience-coalesce/src/"
 TR = "Tracked(tr)"
-LOCKMAP = ("sub", "R8-lock", r"let mut requests = self\.requests\.lock\(\);", "let requests = &mut self.requests;", 1)
+LOCKMAP = ("sub", "R8-lock", r"let mut (\w+) = self\.requests\.lock\(\);", r"let \1 = &mut self.requests;", 1)
 UNIT = dict(
     serves=["C11", "C20"],
     files={"service": CO + "service.rs"},
